@@ -97,7 +97,7 @@ func (g *FuncGen) execInstr(ins ssa.Instruction, st *State) error {
 		case *types.Slice:
 			s := g.val(x.X)
 			g.check(st, "safe.index", fmt.Sprintf("(and (<= 0 %s) (< %s (s_len %s)))", idx, idx, s), "index out of range: "+x.X.Name()+"["+x.Index.Name()+"]", pos)
-			g.addrs[x] = &Addr{m: g.elemMap(u.Elem()), ref: fmt.Sprintf("(s_arr %s)", s), idx: fmt.Sprintf("(+ (s_off %s) %s)", s, idx), rootT: u.Elem(), typ: u.Elem(), fresh: g.fresh[fmt.Sprintf("(s_arr %s)", s)]}
+			g.addrs[x] = &Addr{m: g.elemMap(u.Elem()), ref: fmt.Sprintf("(s_arr %s)", s), idx: fmt.Sprintf("(sidx %s %s)", s, idx), rootT: u.Elem(), typ: u.Elem(), fresh: g.fresh[fmt.Sprintf("(s_arr %s)", s)]}
 		case *types.Pointer:
 			at, ok := u.Elem().Underlying().(*types.Array)
 			if !ok {
@@ -671,6 +671,9 @@ func (g *FuncGen) execNext(x *ssa.Next, st *State) error {
 	if !has {
 		vis = g.freshConst("visited", "(Array "+ks+" Bool)")
 		g.visited[head] = vis
+	}
+	if g.loops[head] == nil {
+		g.bail("map iteration step outside a loop head")
 	}
 	okc := g.freshConst("next.ok", "Bool")
 	k := g.freshConst("next.k", ks)
